@@ -252,10 +252,16 @@ class C11(Prop):
             return {'k': kind, 'l': ls, 'c': [self.rand_tree(rng, depth - 1) for _ in ls]}
         return {'k': kind, 'l': [], 'c': [self.rand_tree(rng, depth - 1) for _ in range(n)]}
 
+    def tuple_top(self, rng):
+        """a tuple holding at least one mutable part"""
+        cs = [self.rand_tree(rng, 1) for _ in range(rng.randint(0, 2))]
+        cs.insert(rng.randint(0, len(cs)), self.rand_tree(rng, 1, mutable_top=True))
+        return {'k': 'tuple', 'l': [], 'c': cs}
+
     def rand_path(self, rng, tree, prefix=()):
         """a path to a container inside `tree` (by the shape it had when built)"""
         path, t = list(prefix), tree
-        while 'k' in t and t['c'] and t['k'] != 'set' and rng.random() < 0.5:
+        while 'k' in t and t['c'] and t['k'] != 'set' and (rng.random() < 0.5 or t['k'] == 'tuple'):
             i = rng.randrange(len(t['c']))
             path.append({'k': t['l'][i]} if t['l'] else {'i': i})
             t = t['c'][i]
@@ -291,7 +297,7 @@ class C11(Prop):
         return {'e': 'append', 'x': x}
 
     def generate(self, rng, tier):
-        n = 400 if tier == "quick" else 9000
+        n = 2000 if tier == "quick" else 20000
         return [self.gen_case(rng) for _ in range(n)]
 
     _obj = True
@@ -312,14 +318,15 @@ class C11(Prop):
         data_keys = []
         # --- the operation body
         for alias in ins:
-            t = self.rand_tree(rng, 2, mutable_top=True)
+            # a tuple at the top (e.g. `return ids, options`) is only shallowly immutable: its parts are mutated below
+            t = self.rand_tree(rng, 2, mutable_top=True) if rng.random() < 0.75 else self.tuple_top(rng)
             v = 'x_' + alias
             body.append({'s': 'in', 'alias': alias, 'tree': t, 'var': v})
             shapes[v] = t
             captured.add(v)
             self.maybe_mut(rng, body, shapes, embedded, v, when_pool=['rec', 'rep', 'both', 'rec'])
         for j in range(rng.randint(0, 2)):
-            t = self.rand_tree(rng, 2, mutable_top=True)
+            t = self.rand_tree(rng, 2, mutable_top=True) if rng.random() < 0.75 else self.tuple_top(rng)
             v = 'n%d' % j
             body.append({'s': 'new', 'tree': t, 'var': v})
             shapes[v] = t
@@ -366,6 +373,7 @@ class C11(Prop):
         # --- the read phase
         script, nrec, nvar, nplay = [], 0, 0, 0
         recs, handed = [], []        # handed: (var, shape)
+        aliased = set()              # (recording object, key) holding an object the client still has a reference to
         md_whole = {'k': 'dict', 'l': ['tag', 'user'], 'c': [TAG, md]}
         # a lookup that scans the recording BEFORE it is fetched is how a batch is normally selected for replay
         if rng.random() < 0.6:
@@ -381,8 +389,11 @@ class C11(Prop):
                 shp = shape if kind == 'raw' else ({'k': 'dict', 'l': ['value'], 'c': [shape]} if kind == 'env' else
                                                    {'k': 'dict', 'l': ['args', 'kwargs'], 'c': [{'k': 'list', 'l': [], 'c': []}, {'k': 'dict', 'l': [], 'c': []}]})
                 path, target = self.rand_path(rng, shp)
-                if objects:
-                    script.append({'s': 'direct', 'rec': rng.choice(recs), 'key': key, 'path': path,
+                drec = rng.choice(recs)
+                # (not a key the client stored one of ITS objects under: the model compiles `direct` as read a copy /
+                # mutate / put back, which is the same thing only while the client holds no reference to the stored object)
+                if objects and (drec, key) not in aliased:
+                    script.append({'s': 'direct', 'rec': drec, 'key': key, 'path': path,
                                    'edit': self.rand_edit(rng, target, None)})
             if c < 0.2 or not recs:
                 nrec += 1
@@ -422,6 +433,7 @@ class C11(Prop):
                     embedded.add(v)
                     script.append({'s': 'set', 'rec': rng.choice(recs), 'key': rng.choice([k[0] for k in keys] + ['fresh']),
                                    'var': v})
+                    aliased.add((script[-1]['rec'], script[-1]['key']))
             elif c < 0.93:
                 nvar += 1
                 v = 'c%d' % nvar
